@@ -3,7 +3,7 @@ import ast
 
 from ..core import AnalysisError, dotted, call_name, src, walk_local, const_value
 from ..flow import edge_facts, linear, Lin
-from ..rules import flow_of, calls_in, bind_args, canon, facts_at, cmp_norm, alts_deep, state_writes, region, store_targets
+from ..rules import anchored_fn, flow_of, calls_in, bind_args, canon, facts_at, cmp_norm, alts_deep, state_writes, region, store_targets
 from ..indexdom import check_function as index_check
 from ..units import check_units
 from ..tables import UNITS
@@ -165,7 +165,7 @@ def min_args(e):
 
 def rule_bounds(ck):
     repo = ck.repo
-    sa = repo.fn("SortedSchedulingAlgo.sorting_algorithm")
+    sa = anchored_fn(repo, "SortedSchedulingAlgo.sorting_algorithm", ("schedule", "queue"), loops_over=("queue",))
     fl = flow_of(sa)
     # greedy ub / lb: take the definitions used at the search calls
     n_ub = 0
@@ -208,7 +208,7 @@ def rule_bounds(ck):
                        sink="greedy:candidates")
     ck.floor("C07.R2", n_ub, 1, "greedy searches with an upper bound")
     # round robin
-    rr = repo.fn("RoundRobin.round_robin")
+    rr = anchored_fn(repo, "RoundRobin.round_robin", ("schedule", "queue", "rate_idx", "allowable_pilots"))
     rl = flow_of(rr)
     cfg = rl.cfg
     ubdefs = [n for n in cfg.nodes if n.kind == "stmt" and isinstance(n.stmt, ast.Assign) and any(dotted(t) == "ub" for t in n.stmt.targets)]
@@ -345,7 +345,7 @@ def bisection_roles(repo):
 
 def rule_tentative(ck):
     repo = ck.repo
-    sa = repo.fn("SortedSchedulingAlgo.sorting_algorithm")
+    sa = anchored_fn(repo, "SortedSchedulingAlgo.sorting_algorithm", ("schedule", "queue"), loops_over=("queue",))
     fl = flow_of(sa)
     cfg = fl.cfg
     stores = [n for n in cfg.nodes if n.kind == "stmt" and isinstance(n.stmt, ast.Assign) and isinstance(n.stmt.targets[0], ast.Subscript) and dotted(n.stmt.targets[0].value) == "schedule"]
@@ -386,7 +386,7 @@ def rule_tentative(ck):
         ck.require(("infrastructure.is_continuous[infrastructure.get_station_index(session.station_id)]", False) in fs, "C07.R4", sa, c, ok="level search for finite-rate EVSEs",
                    bad="the discrete search is not on the not-continuous edge", sink="dispatch:discrete")
     # max_feasible_rate
-    mf = repo.fn("SortedSchedulingAlgo.max_feasible_rate")
+    mf = anchored_fn(repo, "SortedSchedulingAlgo.max_feasible_rate", ("new_schedule",), nested=True)
     ml = flow_of(mf)
     for r in [n for n in ml.cfg.nodes if n.kind == "return"]:
         s = canon(r.expr)
@@ -445,7 +445,7 @@ def rule_tentative(ck):
     from .discrete import rule_discrete_search
     rule_discrete_search(ck, rid_safe="C07.R3", which=("safe",))
     # round robin tentative / revert (facts and expanded values: robust to temporaries, guard clauses and inverted tests)
-    rr = repo.fn("RoundRobin.round_robin")
+    rr = anchored_fn(repo, "RoundRobin.round_robin", ("schedule", "queue", "rate_idx", "allowable_pilots"))
     rl = flow_of(rr)
     rcfg = rl.cfg
     wh = [n for n in rcfg.nodes if n.kind == "test" and isinstance(n.stmt, ast.While)]
@@ -507,11 +507,11 @@ def rule_output(ck):
         ck.require(loops[0] not in fl.cfg.reach(te, avoid=set(sts) | {fl.cfg.raise_exit}), "C07.R6", f, "every station gets an entry", ok="no station skipped",
                    bad="some station can be left out of the schedule (conditional store)", sink="format:all")
     for q, alg in (("SortedSchedulingAlgo.sorting_algorithm", "sorting_algorithm"), ("RoundRobin.round_robin", "round_robin")):
-        g = repo.fn(q)
+        g = anchored_fn(repo, q, ("schedule",))
         gl = flow_of(g)
         init = [n for n in gl.cfg.nodes if n.kind == "stmt" and isinstance(n.stmt, (ast.Assign, ast.AnnAssign)) and
                 any(dotted(t) == "schedule" for t in (n.stmt.targets if isinstance(n.stmt, ast.Assign) else [n.stmt.target]))]
-        ok = len(init) == 1 and canon(init[0].stmt.value) == "np.zeros(infrastructure.num_stations)"
+        ok = len(init) == 1 and canon(gl.expand(init[0].stmt.value, init[0])) in ("np.zeros(infrastructure.num_stations)", "np.zeros(len(infrastructure.station_ids))")
         ck.require(ok, "C07.R6", g, init[0].stmt if init else "schedule = np.zeros(...)", ok="schedule starts at 0 for every station and is never re-created",
                    bad="the schedule array is not initialised once as zeros(num_stations): stations without a session may not get 0", sink=f"{alg}:zeros")
         for r in [n for n in gl.cfg.nodes if n.kind == "return"]:
